@@ -20,7 +20,7 @@ claim("C09", "SSA dominance facts (ordering) + shape analysis + who-may-call",
       "materials before / products after the command; os/exec only via RunInspections->InTotoRun->RunCommand. Does not decide artifact recording.", "4.9")
 claim("C14", "typestate over *exec.Cmd in SSA + def-use pairing of streams and keys + error-flow",
       "Decides: the two pipes of one Cmd are never drained sequentially in the waiting goroutine; Wait dominates success returns and follows "
-      "reads; return-value/stdout/stderr derive from Wait/stdout/stderr respectively; empty command refused before indexing. Does not decide timing "
+      "reads; return-value/stdout/stderr derive from Wait/stdout/stderr respectively; empty command refused before indexing; a Start/Run error is returned unless it is an *exec.ExitError (disjunctive branch facts); no blocking drain under a mutex. Does not decide timing "
       "or signal exits.", "4.14")
 claim("C02", "SSA guarded-store analysis (dominance facts keyed by value identity) + branch normal form + map-order analysis + error-flow",
       "Decides: a link is stored in the verified map only under a successful VerifySignature with layout.Keys[id] for an id of the current step's "
@@ -33,7 +33,7 @@ claim("C10", "map-order independence analysis (A3) + interprocedural effects/ali
       "no mutable package state. Does not decide determinism of the file system, commands or crypto/x509.", "4.10")
 claim("C16", "global-write analysis over SSA (package-level state, process-global mutators, shared results)",
       "Decides a sufficient structural condition: no package-level variable of in_toto/internal/spiffe is written or written through outside init, no "
-      "process-global mutators are called, dependency globals reached are read-only, no exported function returns package-level memory. Does not "
+      "process-global mutators are called, dependency globals reached are read-only, no exported function returns package-level memory; sync.Map/Pool/Mutex/Once/atomic operations on package-level variables count as shared state (stronger than the property: a correct pool would be reported too). Does not "
       "decide races inside the runtime/stdlib or on shared arguments.", "4.16")
 claim("C03", "keyword/grammar table agreement + per-arm facts on phi edges + guarded-store analysis in the MATCH helper + error-flow",
       "Decides: parser, interpreter and spec keyword sets agree; the parser's MATCH grammar table (lengths, keyword positions, extracted fields) and the "
@@ -52,18 +52,18 @@ claim("C11", "type-level JSON schema extraction compared with a frozen wire-form
       "cjson.EncodeCanonical(Signed) unprocessed; the DSSE payload bytes come from encoding/json or from cjson only under json.Valid; strict decoding; cjson "
       "panics recovered. Does not decide injectivity or reference equality of canonical JSON.", "4.11")
 claim("C12", "sibling cross-check of the two loaders + nil-dereference facts + static reachability of the validator family + constant tables",
-      "Decides: both loaders nil-test raw parts, share the strict decoder and fail on its error; required-field check uses the decoded type; unknown markers "
+      "Decides: both loaders nil-test raw parts, share the strict decoder and fail on its error; required-field check uses the decoded type and refuses a member only when its key is absent (null written by the writers loads back); unknown markers "
       "fail; writer/reader key agreement; every validator (incl. inspections) is wired from ValidateMetablock; format constants; constructors initialise the "
       "signature list. Does not decide round-trip equality or exactness of the validator.", "4.12")
 claim("C17", "guarded-store facts + reachability + return-shape analysis of the matcher",
       "Decides only: a malformed pattern can not add to Filter's result; rule verification reaches no other matcher; error returns carry matched=false and "
-      "only the bad-pattern sentinel; whole-name exhaustion and trailing-star shape; no '/' special-casing. The glob grammar itself is NOT decided.", "4.17")
+      "only the bad-pattern sentinel; whole-name exhaustion and trailing-star shape; no '/' special-casing; scanner/matcher escape agreement; the star scan retries every byte offset and the name is not sliced otherwise. The glob grammar itself is NOT decided.", "4.17")
 claim("C18", "write-set / field-coverage analysis + constant regexp tree comparison + def-use single-pass check + A3 + A4",
       "Decides: exactly the six fields are rewritten, each from itself over the whole list; pairs are (\"{\"+name+\"}\", value); name pattern equals "
       "^[a-zA-Z0-9_-]+$ with failing mismatch; one Replacer, one Replace per original string; empty dictionary returns the input; order independence; "
       "no write through the argument's memory. Does not decide strings.Replacer's algorithm.", "4.18")
 claim("C13", "constant table + SSA provenance of hashed bytes / digests + dominance facts over the walk callback + def-use of the three-way difference",
-      "Decides: hash algorithm table; RecordArtifact hashes the bytes of the named file, rewrites only under lineNormalization, fails on unknown algorithms, "
+      "Decides: hash algorithm table; RecordArtifact hashes the bytes of the named file, rewrites only under lineNormalization and only with the CRLF->LF, CR->LF replacement pair (directly or in one helper), fails on unknown algorithms, "
       "stores each digest under the name whose constructor computed it; walk discipline (errors returned, exclusion before hashing, dir symlinks only on request, "
       "cycle and collision errors, ToSlash, fresh visited set); snapshot discipline of run/record start/stop; InTotoMatchProducts' three results. Does NOT decide "
       "completeness of the walk, symlink semantics on real trees or digest values.", "4.13")
